@@ -696,6 +696,58 @@ func init() {
 				}
 			}
 		}
+		// DEEP stream: the statement quantifies over every nesting depth. Arrays / objects / mixed nested 9 … 300 deep
+		// (around powers of two and small-capacity thresholds), balanced, cut after every closing bracket of the tail, one
+		// closer too many, one closer of the wrong kind — each through the full comparison with the model
+		{
+			depths := []int{9, 16, 17, 18, 19, 33, 36, 37, 65, 129, 257}
+			if vh.Tier() == "thorough" {
+				depths = []int{9, 15, 16, 17, 18, 19, 31, 32, 33, 35, 36, 37, 63, 64, 65, 66, 100, 127, 128, 129, 130, 200, 255, 256, 257, 300}
+			}
+			for _, d := range depths {
+				for form := 0; form < 3; form++ {
+					var open, cl strings.Builder
+					var closers []string
+					for i := 0; i < d; i++ {
+						obj := form == 1 || (form == 2 && i%2 == 1)
+						if obj {
+							open.WriteString(`{"k":`)
+							closers = append(closers, "}")
+						} else {
+							open.WriteString("[")
+							closers = append(closers, "]")
+						}
+					}
+					for i := d - 1; i >= 0; i-- {
+						cl.WriteString(closers[i])
+					}
+					inner := []string{"", "1", `"s"`, "null"}[d%4]
+					if form != 0 && inner == "" {
+						inner = "0"
+					}
+					full := open.String() + inner + cl.String()
+					emit([]byte(full))
+					emit([]byte(" " + full + "\n"))
+					rep.Stat("deep_documents")
+					tail := cl.String()
+					for k := 0; k < len(tail); k++ { // every truncation inside the run of closers
+						if k%9 == 0 || k > len(tail)-4 || k < 4 {
+							emit([]byte(open.String() + inner + tail[:k]))
+						}
+					}
+					emit([]byte(full + "]"))
+					emit([]byte(full + "}"))
+					wrong := []byte(full)
+					mid := len(open.String()) + len(inner) + d/2
+					if wrong[mid] == ']' {
+						wrong[mid] = '}'
+					} else {
+						wrong[mid] = ']'
+					}
+					emit(wrong)
+				}
+			}
+		}
 		// several documents in lockstep (valid texts, their truncations and damaged copies), 2-4 at a time
 		for i := vh.Pick(1500, 15000); i > 0; i-- {
 			k := 2 + r.Intn(3)
